@@ -353,13 +353,14 @@ PROPS["C16"] = {
                   "cells, slice backing arrays and maps; calls of methods outside the body are a parameter). Kernel-checked for every "
                   "declaration environment, every type the generator accepts (no klog.Fatalf) and every well-typed value: the emitted "
                   "body leaves a value deeply equal to the original, nil versus empty included, built from freshly allocated storage only "
-                  "(so copy and original share none), provided the methods it calls are good copies; DeepCopy() of reference types maps "
+                  "(so copy and original share none); DeepCopy() of reference types maps "
                   "nil to nil; values of assignable types reach no storage; hand-written methods are never regenerated and are what the "
-                  "emitted code calls at every position; methods are generated for exactly the copyable types the tags select. PARTIAL: "
-                  "the theorem is modular - each generated method is correct given correct callees; the induction over call depth "
-                  "that closes the loop for mutually recursive struct types is not formalised. That the Go text of a shape has the "
-                  "modelled semantics is validated, not proved: the real deepcopy-gen's output must equal the model's rendering text for "
-                  "text, and the compiled output is run against a reflection oracle on random values.",
+                  "emitted code calls at every position; methods are generated for exactly the copyable types the tags select. The "
+                  "generated methods call each other: with k levels of calls they are good on all values of depth below k, so "
+                  "DeepCopy() of every selected type is a deep copy of every value - assumed good are only the hand-written methods and "
+                  "the DeepCopy<Iface> implementations. PARTIAL: that the Go text of a shape has the modelled semantics is validated, "
+                  "not proved: the real deepcopy-gen's output must equal the model's rendering text for text, and the compiled output "
+                  "is run against a reflection oracle on random values.",
     "level_note": "Trusted: Lean kernel; the model (method bodies compared with the real generator's gofmt output, white space dropped); Go's "
                   "semantics of the emitted statements as transcribed in exec (validated by compiling and running the real output); the "
                   "program generator's bookkeeping; reflect.DeepEqual and reflect-based address walks as the oracle; go build in GOPATH "
